@@ -35,6 +35,20 @@ nodes:
       - pattern: |
           {"inc":"?n"}
         target: add
+      - pattern: |
+          {"drop":"?d"}
+        target: drop
+  drop:
+    action:
+      interpreter: ecmascript
+      source: |-
+        var bs = _.bindings;
+        delete bs.tmp;
+        delete bs["?d"];
+        return bs;
+    branching:
+      branches:
+      - target: start
   add:
     action:
       interpreter: ecmascript
@@ -56,6 +70,11 @@ type SOpV struct {
 	// Per0: the machine is added with bindings {"per":0}; its action then
 	// computes 1/0 = +Inf, a state that cannot be written
 	Per0 bool `json:"per0,omitempty"`
+	// Tmp: the machine is added with a binding {"tmp":"x"}, which a
+	// "drop" message removes again (a step that only removes bindings
+	// and comes back to the node it left)
+	Tmp  bool `json:"tmp,omitempty"`
+	Drop bool `json:"drop,omitempty"` // process: the message is {"drop":1}
 }
 
 type ServiceCase struct {
@@ -81,6 +100,12 @@ func genSOp(t *rapid.T, label string, faults bool, pool ...string) SOpV {
 	}
 	if op.Kind == "add" && faults {
 		op.Per0 = rapid.IntRange(0, 5).Draw(t, label+".per0") == 0
+	}
+	if op.Kind == "add" {
+		op.Tmp = rapid.IntRange(0, 2).Draw(t, label+".tmp") == 0
+	}
+	if op.Kind == "process" {
+		op.Drop = rapid.IntRange(0, 3).Draw(t, label+".drop") == 0
 	}
 	return op
 }
@@ -202,6 +227,9 @@ func doSOp(ctx context.Context, s *Service, op SOpV) (map[string]*core.Walked, e
 		if op.Per0 {
 			return nil, s.AddMachine(ctx, "vcounter", op.Mid, "", match.Bindings{"per": 0.0})
 		}
+		if op.Tmp {
+			return nil, s.AddMachine(ctx, "vcounter", op.Mid, "", match.Bindings{"tmp": "x"})
+		}
 		return nil, s.AddMachine(ctx, "vcounter", op.Mid, "", nil)
 	case "poisonAdd":
 		// bolt rejects the empty key, so this write fails as a whole
@@ -210,6 +238,9 @@ func doSOp(ctx context.Context, s *Service, op SOpV) (map[string]*core.Walked, e
 		return nil, s.RemMachine(ctx, op.Mid)
 	case "process":
 		msg := map[string]interface{}{"inc": 1.0}
+		if op.Drop {
+			msg = map[string]interface{}{"drop": 1.0}
+		}
 		if !op.All {
 			msg["to"] = op.Mid
 		}
@@ -319,6 +350,9 @@ func checkService(c ServiceCase) (v ev.Verdict) {
 			<-start
 			for _, op := range ops {
 				ws, _ := doSOp(ctx, s, op)
+				if op.Drop {
+					continue // only removes a binding: no count to chain
+				}
 				for mid, w := range ws {
 					if w == nil || len(w.Strides) == 0 {
 						continue
